@@ -477,6 +477,11 @@ def g_obs(o):
 def run(chk, model_ok):
     cases = build_cases(chk)
     rows, crashed = run_cases(cases, chk.scratch)
+    judge(chk, model_ok, cases, rows, crashed)
+
+
+def judge(chk, model_ok, cases, rows, crashed):
+    """Property oracle, correspondence and coverage for observed cases."""
     for rc, err in crashed:
         chk.fail("correspondence", "worker-crash", f"C07 worker died rc={rc}: {err}", {"correspondence": "drive/c07.py"})
     stats = {"families": {}, "dtypes": {}, "attr_present": {}, "ref_errors": 0, "ref_compared": 0,
@@ -679,7 +684,7 @@ def run(chk, model_ok):
                 "value, type limits, NaN; 1-d, 2-d and scalar variables; data variables and auxiliary coordinates with bounds; a "
                 "malformed stream (string-valued attributes, valid_range of 1 or 3 values, vector scale_factor/add_offset). "
                 "Non-trivial = at least one of the eight attributes present; distinct by canonical JSON of the variable",
-        "samples": [{k: v for k, v in cases[j].items() if k in ("dt", "attrs", "fill", "data")} for j in (7, len(cases) // 2, len(cases) - 1)],
+        "samples": [{k: v for k, v in cases[j].items() if k in ("dt", "attrs", "fill", "data")} for j in sorted({min(7, len(cases) - 1), len(cases) // 2, len(cases) - 1})],
         "traces_validated_against_impl": ncorr,
         "disagreements_checked": ncorr,
         "counters": stats,
@@ -701,32 +706,29 @@ def run(chk, model_ok):
 
 
 def replay(chk, path):
+    """Re-run the inputs of a replay file through the same oracle and correspondence;
+    exit code 1 iff a failure of the recorded signature (or, for a correspondence
+    replay, any failure) is reproduced."""
     d = json.load(open(path))
-    bad = 0
+    seen, cases = set(), []
     for x in d.get("cases", []):
         c = x.get("input")
         if not c or "dt" not in c:
             continue
-        c = dict(c)
-        c["i"] = 0
-        rows, crashed = run_cases([c], chk.scratch, nworkers=1)
-        r = rows[0]
-        print(json.dumps(c)[:400])
-        print(" ->", json.dumps(r)[:1500])
-        cfg = x.get("config")
-        if r is None:
-            bad += 1
+        key = lib.canon(c)
+        if key in seen:
             continue
-        if cfg and cfg in r["cf"]:
-            o = r["cf"][cfg]
-            b, m, u = cfg.split("|")
-            exp = x.get("expected")
-            got = o.get("applied") if (m == "0" and isinstance(exp, dict) and "flat" in exp and "applied" in o
-                                        and "apply_masking" in x.get("what", "")) else o.get("whole")
-            if isinstance(exp, dict) and "flat" in exp:
-                bad += not (got is not None and "err" not in got and got["flat"] == exp["flat"] and got["dtype"] == exp["dtype"])
-            else:
-                bad += "err" in (got or {"err": 1})
-        else:
-            bad += 1
-    return 1 if bad else 0
+        seen.add(key)
+        c = dict(c)
+        c["i"] = len(cases)
+        cases.append(c)
+    if not cases:
+        print("no replayable input in", path)
+        return 1
+    rows, crashed = run_cases(cases, chk.scratch, nworkers=min(4, len(cases)))
+    judge(chk, all(lib.vo_ok(f"theories/C07/{n}.v") for n in MODEL_FILES), cases, rows, crashed)
+    hits = [f for f in chk.failures if f.signature == d.get("signature") or d.get("kind") != "property"]
+    for f in chk.failures[:12]:
+        print(f"({f.kind}) {f.signature}: {f.what}"[:700])
+    print(f"replayed {len(cases)} input(s): {len(chk.failures)} failure(s), {len(hits)} matching '{d.get('signature')}'")
+    return 1 if hits else 0
